@@ -318,6 +318,19 @@ fn candle_eq(h: &mut H) {
 			}
 		}
 	}
+	// finite values whose (partial) sums overflow
+	let ext: [V; 6] = [V::MAX, V::MIN, 0.75 * V::MAX, 1.0, V::NAN, V::INFINITY];
+	for &a in &ext {
+		for &b in &ext {
+			vs.push(vec![a, b]);
+			for &c in &ext {
+				vs.push(vec![a, b, c]);
+				for &d in &ext {
+					vs.push(vec![a, b, c, d]);
+				}
+			}
+		}
+	}
 	for s in &vs {
 		seqs += 1;
 		let want = s.iter().all(|x| x.is_finite());
@@ -401,6 +414,23 @@ fn edit1(s: &str, alphabet: &[char]) -> Vec<String> {
 	out
 }
 
+/// every string obtained by flipping one bit of one byte of `s` (kept when it is still UTF-8): byte-level
+/// tricks (case folding by masks, table lookups) show up on the neighbours that are not letters
+fn bitflips(s: &str) -> Vec<String> {
+	let b = s.as_bytes();
+	let mut out = vec![];
+	for i in 0..b.len() {
+		for k in 0..8 {
+			let mut v = b.to_vec();
+			v[i] ^= 1 << k;
+			if let Ok(t) = String::from_utf8(v) {
+				out.push(t);
+			}
+		}
+	}
+	out
+}
+
 fn check_source_text(s: &str) -> Option<(String, String)> {
 	let want = source_model(s);
 	let got = catch(|| Source::from_str(s));
@@ -441,6 +471,8 @@ fn text_sources(h: &mut H) {
 		strings.push(format!("{} {}", &name[..mid], &name[mid..]));
 		let alphabet: Vec<char> = "abcdefghijklmnopqrstuvwxyz0123456789_- ABCHLOPTV".chars().collect();
 		strings.extend(edit1(name, &alphabet));
+		strings.extend(bitflips(name));
+		strings.extend(bitflips(&name.to_uppercase()));
 	}
 	for s in ["", " ", "İ", "ſ", "clo\u{17f}e", "hl２", "ｔｐ", "close\0", "volumed price", "volumed-price", "volumedprice", "VOLUMED_PRICE", "Tp", "tP", "hlc", "ohlc4", "K"] {
 		strings.push(s.to_string());
@@ -548,6 +580,8 @@ fn text_ma(h: &mut H, thorough: bool) {
 		let bases: Vec<String> = if thorough { vec![format!("{k}-5"), format!("{k}-25"), format!("{k}-254")] } else { vec![format!("{k}-5"), format!("{k}-25")] };
 		for b in bases {
 			strings.extend(edit1(&b, &alphabet));
+			strings.extend(bitflips(&b));
+			strings.extend(bitflips(&b.to_uppercase()));
 		}
 		for s in [format!("{k}"), format!("{k}-"), format!("{k}--5"), format!("{k}-+5"), format!("{k}-+"), format!("{k}- 5"), format!("{k}-5 "), format!(" {k}-5"), format!("{k}-５"), format!("{k}-5.0"), format!("{k}-0x5"), format!("{k}-256"), format!("{k}-1e1"), format!("{k}-99999999999999999999999999"), format!("{k}-005"), format!("{}-5", k.to_uppercase()), format!("{k}_5"), format!("{k}-5-5"), format!("-{k}-5")] {
 			strings.push(s);
